@@ -5,7 +5,9 @@ import time
 LEVEL_TEXT = ("Deductive: row codecs, extract_label (the regex is modelled as a z3 regular expression with Python's $/\\Z semantics; "
               "non-labels decompose to nothing, labels into exactly their parts with faithful $ flags), to_label, termination and shape of "
               "column_index_to_label; regex obligation: L(source pattern) = L(statement's label shape).  The base-26 bijection itself "
-              "(nonlinear induction) is decided by exhaustive native enumeration (bounded, labelled).")
+              "(nonlinear induction) is decided by exhaustive native enumeration of all 1..3-letter labels - the whole Excel grid A..XFD - (thorough: 4), "
+              "seeded 4..12-letter labels against the positional definition, and decompositions after every order of the four $ patterns of the "
+              "same letters (bounded, labelled).")
 TRUSTED = ['int(str)/str(int) on digit strings (py_int / py_str_int uninterpreted with the stated axioms)',
            'col_label/col_value bijection: exhaustive enumeration, not the solver']
 
